@@ -96,7 +96,7 @@ def _decode_hex_char(value: str, index: int, token: Token) -> tuple[int, int]:
 
 def _parse_hex_digits(digits: str, token: Token) -> int:
     codepoint = 0
-    for digit in digits.encode():
+    for digit in map(ord, digits):
         codepoint <<= 4
         if digit >= 48 and digit <= 57:
             codepoint |= digit - 48
